@@ -167,12 +167,46 @@ Definition parse_alert (id : string) (a : walert) : rt_alert * list rt_trip :=
 End Oracles.
 
 (* ================= extensions/nycttrips ================= *)
-(* TripIDRegex: six digits, underscore, 1-2 alnum, two arbitrary bytes (not LF), S or N, alnum until the end: does it match, on ASCII ids *)
+(* TripIDRegex: six digits, underscore, 1-2 alnum, two arbitrary CHARACTERS (not LF), S or N, alnum until the end.  Go's regexp
+   reads the id rune by rune: `.` consumes one UTF-8 encoded character (1-4 bytes); a byte that does not start a valid encoding
+   is read as U+FFFD and consumes that one byte.  rune_len is the width utf8.DecodeRune reports (the exact validity ranges:
+   no overlong forms, no surrogates, nothing above U+10FFFF). *)
 Definition not_nl (a : ascii) : bool := negb (Ascii.eqb a "010").
-Definition tail_ok (l : list ascii) : bool :=     (* two bytes, S or N, alnum to the end *)
+Definition in_range (lo hi : Z) (a : ascii) : bool := (lo <=? bval a) && (bval a <=? hi).
+Definition cont (a : ascii) : bool := in_range 128 191 a.
+Definition rune_len (l : list ascii) : nat :=
   match l with
-  | x :: y :: d :: r => not_nl x && not_nl y && (Ascii.eqb d "S" || Ascii.eqb d "N") && forallb a_alnum r
-  | _ => false
+  | [] => 0%nat
+  | a :: r =>
+    let c := bval a in
+    if c <? 128 then 1%nat
+    else if in_range 194 223 a then match r with b :: _ => if cont b then 2%nat else 1%nat | [] => 1%nat end
+    else if in_range 224 239 a then
+      match r with
+      | b :: d :: _ =>
+        let ok2 := if c =? 224 then in_range 160 191 b else if c =? 237 then in_range 128 159 b else cont b in
+        if ok2 && cont d then 3%nat else 1%nat
+      | _ => 1%nat end
+    else if in_range 240 244 a then
+      match r with
+      | b :: d :: e :: _ =>
+        let ok2 := if c =? 240 then in_range 144 191 b else if c =? 244 then in_range 128 143 b else cont b in
+        if ok2 && cont d && cont e then 4%nat else 1%nat
+      | _ => 1%nat end
+    else 1%nat
+  end.
+(* one character that is not LF: the rest of the list after it *)
+Definition drop_char (l : list ascii) : option (list ascii) :=
+  match l with
+  | [] => None
+  | a :: _ => if not_nl a then Some (skipn (rune_len l) l) else None
+  end.
+Definition tail_ok (l : list ascii) : bool :=     (* two characters, S or N, alnum to the end *)
+  match drop_char l with
+  | Some l1 => match drop_char l1 with
+               | Some (d :: r) => (Ascii.eqb d "S" || Ascii.eqb d "N") && forallb a_alnum r
+               | _ => false end
+  | None => false
   end.
 Definition trip_id_origin (s : string) : option Z :=
   match la s with
